@@ -3,6 +3,7 @@ package core
 import (
 	"errors"
 	"fmt"
+	"sort"
 	"strings"
 
 	jschema "github.com/jsightapi/jsight-schema-go-library"
@@ -172,12 +173,14 @@ func (*JApiCore) getPropertiesNames(pp map[string]*catalog.SchemaContentJSight) 
 		return ""
 	}
 
-	buf := strings.Builder{}
+	// Sorted, so the message does not depend on map iteration order.
+	names := make([]string, 0, len(pp))
 	for k := range pp {
-		buf.WriteString(k)
-		buf.WriteString(", ")
+		names = append(names, k)
 	}
-	return strings.TrimSuffix(buf.String(), ", ")
+	sort.Strings(names)
+
+	return strings.Join(names, ", ")
 }
 
 func (core *JApiCore) ProcessAllOf() *jerr.JApiError {
